@@ -1446,13 +1446,16 @@ int gp_str_compare(
 
     int result;
     if (collate) {
-        if (locale_code == NULL)
+        // gp_locale() returns NULL for a locale that is not available, like
+        // gp_str_sort() fall back to the global locale then.
+        const GPLocale locale = locale_code == NULL ? (GPLocale)0 : gp_locale(locale_code);
+        if (locale == (GPLocale)0)
             result = wcscoll(wcs1, wcs2);
         else
             #if _WIN32
-            result = _wcscoll_l(wcs1, wcs2, gp_locale(locale_code));
+            result = _wcscoll_l(wcs1, wcs2, locale);
             #elif GP_LOCALE_AVAILABLE
-            result = wcscoll_l(wcs1, wcs2, gp_locale(locale_code));
+            result = wcscoll_l(wcs1, wcs2, locale);
             #else
             result = wcscoll(wcs1, wcs2);
             #endif
